@@ -14,7 +14,7 @@ import (
 // functions, $this capture, closures as arguments). There is no reference model: the
 // oracle is the interpreted run of the same file. Feature tags are syntactic.
 func genClassProgram(r *rand.Rand, idx int, off func(string) bool) (string, []string) {
-	g := &cgen{r: r, off: off, feats: map[string]bool{"class": true}}
+	g := &cgen{r: r, off: off, feats: map[string]bool{"class": true}, ns: fmt.Sprintf("K%d", idx)}
 	g.build()
 	var sb strings.Builder
 	fmt.Fprintf(&sb, "<?php\nnamespace K%d;\n", idx)
@@ -47,6 +47,7 @@ type cclass struct {
 }
 
 type cgen struct {
+	ns    string
 	r     *rand.Rand
 	off   func(string) bool
 	feats map[string]bool
@@ -82,7 +83,7 @@ func (g *cgen) lit(kind int) string {
 	case 3:
 		return []string{"true", "false"}[r.Intn(2)]
 	case 4:
-		return []string{"[]", "[1, 2, 3]", "['k' => 1, 'm' => 'v']", "[[1], [2, 3]]", "[5 => 'a', 'b']"}[r.Intn(5)]
+		return []string{"[]", "[1, 2, 3]", "['k' => 1, 'm' => 'v']", "[[1], [2, 3]]", "[5 => 'a', 7 => 'b']"}[r.Intn(5)]
 	}
 	return "null"
 }
@@ -319,7 +320,7 @@ func (g *cgen) emitClass(c *cclass, hasExc bool) {
 	}
 	// static helpers
 	if g.maybe("static-method", 2) {
-		fmt.Fprintf(w, "  static function twice%s($v) { return self::half%s($v) * 4; }\n  private static function half%s($v) { return intdiv($v, 2); }\n", c.name, c.name, c.name)
+		fmt.Fprintf(w, "  static function twice%s($v) { return self::half%s($v) * 4; }\n  private static function half%s($v) { return $v %% 7 + 1; }\n", c.name, c.name, c.name)
 		c.methods["twice"+c.name] = true
 		if !c.abstract {
 			var args []string
@@ -372,7 +373,7 @@ func (g *cgen) emitMain(hasExc bool, nIface int) {
 			fmt.Fprintf(w, "$o%d = new %s(%s); $objs[] = $o%d;\n", k, c.name, strings.Join(args, ", "), k)
 		case 2:
 			if g.use("new-forms") {
-				fmt.Fprintf(w, "$cn%d = __NAMESPACE__ . '\\%s'; $objs[] = new $cn%d(%s);\n", k, c.name, k, strings.Join(args, ", "))
+				fmt.Fprintf(w, "$cn%d = '%s\\%s'; $objs[] = new $cn%d(%s);\n", k, g.ns, c.name, k, strings.Join(args, ", "))
 			} else {
 				fmt.Fprintf(w, "$objs[] = new %s(%s);\n", c.name, strings.Join(args, ", "))
 			}
